@@ -53,6 +53,8 @@ def inclE (A B : TA) : Except String Bool := getE (inclM A B FUEL) "fuel(incl)"
 def equivE (A B : TA) : Except String Bool := getE (equivM A B FUEL) "fuel(equiv)"
 def emptyE (A : TA) : Except String Bool := getE (emptyM A FUEL) "fuel(empty)"
 
+def dedupRules (rs : List Rule) : List Rule := rs.foldl (fun acc r => if acc.contains r then acc else acc ++ [r]) []
+
 def selNames : List String :=
   ["up", "up+sim", "down-nonrec", "down-nonrec+sim", "down-rec", "down-rec+sim", "down-rec-opt", "down-rec-opt+sim", "default"]
 
@@ -84,7 +86,8 @@ def checkIncl (args res : List String) : Except String (Findings × String) := d
   | none => f := f ++ ["mismatch upward-model returned none (fuel / certificate)"]
   -- the L2 models of the downward algorithms (`checkInclDownRec_iff/_total`, `checkInclDownNonrec_iff/_total`): on small
   -- operands, and where the implementation answered within its budget, they must return and agree with it
-  if A.states.length + B.states.length ≤ 7 then
+  -- (the downward algorithms are exponential by design – the models too: only small operands)
+  if A.states.length + B.states.length ≤ 6 && (dedupRules A.rules).length + (dedupRules B.rules).length ≤ 12 then
     for (name, ix, mo) in [("down-rec", 4, checkInclDownRec A B 100000), ("down-rec-opt", 6, checkInclDownRec A B 100000),
         ("down-nonrec", 2, checkInclDownNonrec A B 100000)] do
       let c := chars[ix]!
@@ -175,8 +178,6 @@ def checkUnionDisj (args res : List String) : Except String (Findings × String)
   if !ok1 then f := f ++ ["violation uniondisjoint-language"]
   if f.isEmpty && !(taEq U (unionDisjoint A B)) then f := f ++ ["mismatch uniondisjoint-model"]
   pure (f, "")
-
-def dedupRules (rs : List Rule) : List Rule := rs.foldl (fun acc r => if acc.contains r then acc else acc ++ [r]) []
 
 def checkIsect (args res : List String) (bu : Bool) : Except String (Findings × String) := do
   let A ← getE (args[0]? >>= parseTA?) "bad A"
